@@ -7,7 +7,8 @@
 //   wts = one letter per waiter process W<k>:
 //           w  Wait()       t  WaitFor(1ms), and Wait() if that timed out
 //           i  co_await AwaitInline()    s  co_await AwaitSticky()    o  co_await AwaitOn(executor)
-// M attaches / consumes the futures in order and then gives up its own unit with Done().
+// M attaches / consumes the futures in order and then gives up its own unit with Done()
+//   own = 1 (default) | 0: M holds no unit of its own (only with a single a / c source)
 // A released waiter reports "<who>:<count>:<done flags of the sources>:<Ready() of the attached futures>".
 #include "common.hpp"
 
@@ -165,7 +166,9 @@ VRT_SCENARIO(wg, "WaitGroup / OneShotEvent: sources (Done, attached / consumed f
     ps.push_back(std::move(p));
     plain += sh.src[i] == 'd' ? 1 : 0;
   }
-  yaclib::WaitGroup<> group{1 + plain};
+  // own = 0: M holds no unit of its own, the count can reach zero while Attach / Consume is still running
+  const bool own = ctx.Param("own", "1") == "1";
+  yaclib::WaitGroup<> group{(own ? 1 : 0) + plain};
   yaclib::OneShotEvent event;
   vrt::NameRange(&group, sizeof group, "wg");
   {
@@ -201,8 +204,10 @@ VRT_SCENARIO(wg, "WaitGroup / OneShotEvent: sources (Done, attached / consumed f
           group.Consume(std::move(sh.fs[i]));
         }
       }
-      vrt::Api api{"Done"};
-      group.Done();
+      if (own) {
+        vrt::Api api{"Done"};
+        group.Done();
+      }
     });
   }
   for (std::size_t i = 0; i != n; ++i) {
